@@ -26,14 +26,14 @@ static const int depths_full[] = { 1, 2, 3, 10, 255 };
 static const int depths_two[] = { 1, 3 };
 
 static uint8_t *scratch;        /* inputs are copied to the END of this block */
-#define SCRATCH 70000
+#define SCRATCH 600000
 static binson_state ST[256];
 
 static const uint8_t *cur_in; static size_t cur_n; static int cur_kind, cur_md; static const char *cur_label;
 static void describe(vf_str *o)
 {
     vf_str_printf(o, "root: %s\nmax_depth: %d\ninput_len: %zu\ninput_hex: ", cur_kind == VK_OBJ ? "object" : "array", cur_md, cur_n);
-    if (cur_n <= 5000) vf_str_hex(o, cur_in, cur_n); else vf_str_printf(o, "(too long)");
+    if (cur_n <= 600000) vf_str_hex(o, cur_in, cur_n); else vf_str_printf(o, "(too long)");
     vf_str_printf(o, "\ninput_label: %s\n", cur_label ? cur_label : "");
 }
 
@@ -204,6 +204,58 @@ static void width_family(void)
         }
 }
 
+/* two adjacent names sharing a long common prefix, in every order relation: a comparison that truncates its length
+ * (8 / 16 bits), stops at a NUL or mis-handles the prefix rule shows only here */
+static void name_order_family(void)
+{
+    static const size_t plen[] = { 0, 1, 126, 127, 128, 254, 255, 256, 257, 32766, 32767, 32768, 65534, 65535, 65536, 65537 };
+    static const char *const suf[][2] = { { "a", "b" }, { "b", "a" }, { "a", "a" }, { "a", "ab" }, { "ab", "a" }, { "b", "ax" }, { "", "a" }, { "a", "" }, { "", "" } };
+    static uint8_t doc[140000], P[65537];
+    char label[120];
+    memset(P, 'p', sizeof P);
+    for (size_t pi = 0; pi < sizeof plen / sizeof plen[0]; pi++)
+        for (size_t si = 0; si < sizeof suf / sizeof suf[0]; si++) {
+            if (!take()) continue;
+            size_t n = 0;
+            doc[n++] = 0x40;
+            for (int k = 0; k < 2; k++) {
+                size_t l = plen[pi] + strlen(suf[si][k]);
+                if (l <= 127) { doc[n++] = 0x14; doc[n++] = (uint8_t) l; }
+                else if (l <= 32767) { doc[n++] = 0x15; doc[n++] = (uint8_t) l; doc[n++] = (uint8_t) (l >> 8); }
+                else { doc[n++] = 0x16; doc[n++] = (uint8_t) l; doc[n++] = (uint8_t) (l >> 8); doc[n++] = (uint8_t) (l >> 16); doc[n++] = 0; }
+                memcpy(doc + n, P, plen[pi]); n += plen[pi];
+                memcpy(doc + n, suf[si][k], strlen(suf[si][k])); n += strlen(suf[si][k]);
+                doc[n++] = 0x44;
+            }
+            doc[n++] = 0x41;
+            snprintf(label, sizeof label, "name order: common prefix of %zu bytes, suffixes '%s' then '%s'", plen[pi], suf[si][0], suf[si][1]);
+            vf_count(CT_WIDTH_CASES, 1);
+            eval_input(doc, n, label, VK_OBJ);
+        }
+    /* wide containers */
+    static const int ns[] = { 255, 256, 257, 65535, 65536, 65537 };
+    static uint8_t wide[70000 * 8];
+    for (size_t ni = 0; ni < sizeof ns / sizeof ns[0]; ni++)
+        for (int variant = 0; variant < 3; variant++) {
+            if (!take()) continue;
+            size_t n = 0;
+            int cnt = ns[ni];
+            if (variant == 0) { wide[n++] = 0x42; for (int i = 0; i < cnt; i++) { wide[n++] = 0x10; wide[n++] = (uint8_t) (i & 0x7f); } wide[n++] = 0x43; }
+            else {
+                wide[n++] = 0x40;
+                for (int i = 0; i < cnt; i++) {
+                    int j = (variant == 2 && i == cnt - 1) ? i - 1 : i;       /* variant 2: the LAST name repeats its predecessor -> malformed */
+                    wide[n++] = 0x14; wide[n++] = 4; wide[n++] = (uint8_t) ('a' + j / 17576 % 26); wide[n++] = (uint8_t) ('a' + j / 676 % 26); wide[n++] = (uint8_t) ('a' + j / 26 % 26); wide[n++] = (uint8_t) ('a' + j % 26);
+                    wide[n++] = 0x45;
+                }
+                wide[n++] = 0x41;
+            }
+            snprintf(label, sizeof label, "wide container variant %d with %d members", variant, cnt);
+            vf_count(CT_WIDTH_CASES, 1);
+            eval_input(wide, n, label, variant == 0 ? VK_ARR : VK_OBJ);
+        }
+}
+
 static void towers(void)
 {
     static uint8_t t[4096];
@@ -300,6 +352,7 @@ static void worker(int w, int W, uint64_t start)
     DEPTHS = depths_full; NDEPTHS = 5;
     towers();
     width_family();
+    name_order_family();
     corpus("valid_objects");
     corpus("bad_objects");
     /* token sequences: partitioned inside the enumerator */
@@ -346,9 +399,9 @@ static void replay_main(void)
     char *t = vf_replay_load(vf_g.replay);
     char *root = vf_replay_get(t, "root"), *md = vf_replay_get(t, "max_depth"), *hex = vf_replay_get(t, "input_hex");
     if (!root || !md || !hex) vf_die("replay file lacks root/max_depth/input_hex");
-    static uint8_t bytes[8192];
+    static uint8_t bytes[600000];
     long n = vf_unhex(bytes, sizeof bytes, hex);
-    if (n < 0) vf_die("bad input_hex (inputs longer than 5000 bytes are described by their label only)");
+    if (n < 0) vf_die("bad input_hex");
     scratch = (uint8_t *) vf_xmalloc(SCRATCH);
     vf_g.wid = 0;
     if (!eval_one(bytes, (size_t) n, !strcmp(root, "object") ? VK_OBJ : VK_ARR, atoi(md), "replay", false)) {
@@ -377,7 +430,7 @@ int main(int argc, char **argv)
              "sequence of <= 3 tokens, every framed sequence of <= %d tokens over the %d-token core alphabet; every valid document with <= %d value tokens over 12 "
              "leaf classes (all integer widths, empty/short/2-byte-length strings, bytes, double, booleans) and ALL mutants at deviation distance <= %d (distance 2 "
              "for documents of <= 2 values); nesting towers k in d-2..d+2 for d in {1,2,3,10,255}, 253..258 nested arrays; integer/length width family (35 values x 4 "
-             "widths x 4 roles); the %s corpus files; each x {object, array} x max_depth {1,2,3,10,255}",
+             "widths x 4 roles), adjacent-name order family (16 common-prefix lengths up to 65537 x 9 suffix pairs), wide containers (255..65537 members); the %s corpus files; each x {object, array} x max_depth {1,2,3,10,255}",
              L_FRAMED, VF_NTOK_HOSTILE, L_CORE, VF_NTOK_CORE, N_DOC, MUT_D, "220+1571");
     static const char *const assumptions[] = {
         "the reference recogniser (lib/vf_ref.h) is a correct reading of BINSON-SPEC-1 / binson_defines.h; it shares no code with the library and is cross-checked against the generator's trees in every other check",
